@@ -38,6 +38,16 @@ def _solve_deferred(i):
     return i, verdict, backend, secs, mv
 
 
+def die_with_parent():
+    """worker processes must not outlive a check that is killed (time-out of a caller): ask the kernel for SIGKILL when the parent
+    goes away (Linux prctl PR_SET_PDEATHSIG); a no-op where that is not available"""
+    try:
+        import ctypes, signal
+        ctypes.CDLL('libc.so.6', use_errno=True).prctl(1, int(signal.SIGKILL), 0, 0, 0)
+    except Exception:  # pragma: no cover
+        pass
+
+
 def solve_all_deferred(opts, procs):
     """discharge the deferred obligations in forked workers (they inherit the z3 terms by copy-on-write)"""
     import multiprocessing
@@ -49,7 +59,7 @@ def solve_all_deferred(opts, procs):
         results = [_solve_deferred(i) for i in range(n)]
     else:
         ctx = multiprocessing.get_context('fork')
-        with ctx.Pool(min(procs, n)) as pool:
+        with ctx.Pool(min(procs, n), initializer=die_with_parent) as pool:
             results = pool.map(_solve_deferred, range(n), chunksize=1)
     for i, verdict, backend, secs, mv in results:
         ob = DEFERRED[i][0]
